@@ -27,3 +27,8 @@ func guardsFileExists(name string) bool {
 	_, err := os.Stat(filepath.Join(verifDir(), "rules", name))
 	return err == nil
 }
+
+// extras: additional rule sets per property, run after the property's main function.
+var extras = map[string][]func(p *Program, r *Report){}
+
+func extra(id string, f func(p *Program, r *Report)) { extras[id] = append(extras[id], f) }
